@@ -15,6 +15,17 @@ must agree with each other on every input before the real code is consulted:
     subset of x's set of enclosing Forks, in preorder, followed by x.
 Names, order and object kinds (exact class) are compared.
 
+Edit histories (strengthening round): the evaluated Spec answers every query, then its tree is edited IN PLACE through
+the list / attribute operations the pydantic models permit (nodes.insert / append / pop / del / slice assignment /
+item assignment, assigning a new list to `nodes`, assigning `name`): a leaf or a Compute is added to or removed from
+the root, a nested Hierarchical or a Fork; a node (mostly the target compute) is moved into or out of a Fork; a leaf
+is renamed (also to a name an earlier node had, of any kind); a nested branch is retyped Fork <-> Hierarchical,
+unwrapped, or children are wrapped into a new branch; children are permuted.  The history may continue on
+copy.deepcopy(spec), spec.model_copy(deep=True), a Spec around a deep copy of the arch, a shallow model_copy (shares
+the arch: follows every later edit), or the Spec evaluated again; the object left behind must keep answering for its
+own tree.  After EVERY edit all queries are repeated and compared with the path recomputed from the edited model tree
+by statements A and B; a name that no node has any more must not get a path.
+
 Tree encoding (same as oracles/archtrees.py, which builds the real objects): a forest is a list of nodes; a leaf is
 (kind, name, fanout, area) with kind in Memory / Toll / Container / Compute; a branch is ("H"|"F", [children]).
 """
@@ -31,7 +42,11 @@ BOUND = ("architecture trees of depth <= 4 (root Arch + <= 3 nested Hierarchical
          "Container, Compute leaves (fan-outs 1-4), Hierarchical and Fork branches (possibly empty), >= 1 Compute; "
          "exhaustive core: every shape with <= K nodes (leaves + branches; quick K=4 via Spec and K=5 via Hierarchical._flatten, thorough K=5 via Spec and "
          "K=6 via Hierarchical._flatten), non-Compute kinds rotated over Memory/Toll/Container; plus seeded random trees "
-         "with <= 16 leaves")
+         "with <= 16 leaves; edit histories: every single elementary edit (insert a Compute / a non-Compute leaf at every place, remove every "
+         "node, move every Compute to every place, rename every leaf, retype / unwrap every nested branch, wrap every child and adjacent "
+         "pair into a Hierarchical / a Fork, reverse every child list) of every tree with <= 3 nodes (thorough: <= 4, every leaf moved), "
+         "every ordered pair of such edits on every tree with <= 2 nodes (thorough: <= 3 nodes, one in four on the 3-node trees), and seeded "
+         "random histories of 3-8 edits with <= 2 copy steps on random trees (depth <= 5 after wrapping)")
 RULE = ("trees are built with the real API (Arch/Hierarchical/Fork/Memory/Toll/Container/Compute); the Spec is evaluated "
         "with Spec._spec_eval_expressions; for every Compute x the (class, name) sequence returned by "
         "Spec._get_flattened_architecture() [entry ending in x; exactly one entry per Compute], "
@@ -40,7 +55,15 @@ RULE = ("trees are built with the real API (Arch/Hierarchical/Fork/Memory/Toll/C
         "Hierarchical/Fork containing x, and a repeated _get_flattened_architecture() call, is compared with the path "
         "written in the oracle: non-Compute leaves stacked above x in order (earlier siblings, leaves of earlier non-Fork "
         "nested hierarchies; Forks not containing x and other Computes excluded) followed by x; two independent statements "
-        "of that path (structural recursion / preorder + enclosing-Fork filter) are first checked against each other")
+        "of that path (structural recursion / preorder + enclosing-Fork filter) are first checked against each other. EDIT HISTORIES: "
+        "after the evaluated Spec has answered all these queries its tree is edited in place with the list / attribute operations of the "
+        "real objects (insert / append / pop / del / slice and item assignment on `nodes`, a new list assigned to `nodes`, `name` assigned), "
+        "optionally continuing on copy.deepcopy / model_copy(deep=True) / a deep copy of the arch / a shallow model_copy / the Spec "
+        "evaluated again, and after every edit the same queries (all computes, by name, by object, Arch._flatten, return_fanout form, every "
+        "nested branch containing the compute) are compared with the path recomputed from the edited model tree; objects left behind by a "
+        "copy step are queried too (their own tree; the shared tree for a shallow copy); a query for a name that no node has any more must "
+        "raise instead of returning a path")
+
 
 
 # ---------------------------------------------------------------------------------------------------------------
@@ -320,6 +343,375 @@ def _case(tree, rnd, full=True):
     return ev[0], None
 
 
+
+# ---------------------------------------------------------------------------------------------------------------
+# edit histories: the tree is edited IN PLACE on the evaluated Spec (and on copies of it) between queries
+# ---------------------------------------------------------------------------------------------------------------
+#
+# An edit is json-able data; positions are index paths of branches in the tree AS IT IS when the edit is applied:
+#   ["insert", pos, i, leaf]        a new leaf becomes child i of the branch at pos
+#   ["remove", pos, i]              child i (leaf or whole branch) of the branch at pos is removed
+#   ["move", pos, i, dst, j]        child i of pos is taken out, then put in as child j of the branch at dst
+#                                    (dst is a position in the tree after the removal)
+#   ["rename", pos, i, name]        the leaf gets another name (a fresh one or one that an earlier node had)
+#   ["retype", pos, i]              a nested Hierarchical becomes a Fork with the same children, or the reverse
+#   ["unwrap", pos, i]              a nested branch is replaced by its children
+#   ["wrap", pos, i, j, "H"|"F"]    children i..j-1 are put into a new nested branch
+#   ["reorder", pos, perm]          the children of the branch are permuted
+# The model of the tree (nested lists, same encoding as everywhere in this file) is edited by apply_model; the real
+# objects by apply_real, through the list / attribute operations the pydantic models permit.  After every edit the
+# required paths are recomputed from the model tree by the two statements A and B above.
+
+def _clone(nodes):
+    return [(n[0], _clone(n[1])) if _is_branch(n) else tuple(n) for n in nodes]
+
+
+def _at(tree, pos):
+    ch = tree
+    for i in pos:
+        ch = ch[i][1]
+    return ch
+
+
+def _all_branches(tree, pos=()):
+    yield pos, tree
+    for i, n in enumerate(tree):
+        if _is_branch(n):
+            yield from _all_branches(n[1], pos + (i,))
+
+
+def _leaf_names(nodes):
+    return [n[1] for n, _ in _pre(nodes)]
+
+
+def apply_model(tree, e):
+    op = e[0]
+    ch = _at(tree, e[1])
+    if op == "insert":
+        ch.insert(e[2], tuple(e[3]))
+    elif op == "remove":
+        del ch[e[2]]
+    elif op == "move":
+        n = ch.pop(e[2])
+        _at(tree, e[3]).insert(e[4], n)
+    elif op == "rename":
+        k, _, f, a = ch[e[2]]
+        ch[e[2]] = (k, e[3], f, a)
+    elif op == "retype":
+        ch[e[2]] = ("F" if ch[e[2]][0] == "H" else "H", ch[e[2]][1])
+    elif op == "unwrap":
+        ch[e[2]:e[2] + 1] = ch[e[2]][1]
+    elif op == "wrap":
+        ch[e[2]:e[3]] = [(e[4], ch[e[2]:e[3]])]
+    elif op == "reorder":
+        ch[:] = [ch[k] for k in e[2]]
+    else:
+        raise ValueError(op)
+
+
+def _mk(node):
+    """the real object for a model node (leaf or branch)"""
+    from accelforge.frontend.arch import Hierarchical, Fork
+    if _is_branch(node):
+        return (Hierarchical if node[0] == "H" else Fork)(nodes=[_mk(c) for c in node[1]])
+    return T.build([tuple(node)]).nodes[0]
+
+
+def apply_real(arch, e, variant=0):
+    """the same edit on the real objects; `variant` picks among equivalent list operations"""
+    from accelforge.frontend.arch import Hierarchical, Fork
+    op = e[0]
+    br = _sub(arch, e[1])
+    nodes = br.nodes
+    if op == "insert":
+        if e[2] == len(nodes) and variant % 2:
+            nodes.append(_mk(e[3]))
+        else:
+            nodes.insert(e[2], _mk(e[3]))
+    elif op == "remove":
+        if variant % 3 == 0:
+            del nodes[e[2]]
+        elif variant % 3 == 1:
+            nodes.pop(e[2])
+        else:
+            br.nodes = type(nodes)([n for k, n in enumerate(nodes) if k != e[2]])  # a new list is assigned
+    elif op == "move":
+        n = nodes.pop(e[2])
+        _sub(arch, e[3]).nodes.insert(e[4], n)
+    elif op == "rename":
+        if variant % 2:
+            nodes[e[2]].name = e[3]
+        else:
+            setattr(nodes[e[2]], "name", e[3])
+    elif op == "retype":
+        old = nodes[e[2]]
+        nodes[e[2]] = (Hierarchical if type(old) is Fork else Fork)(nodes=list(old.nodes))
+    elif op == "unwrap":
+        nodes[e[2]:e[2] + 1] = list(nodes[e[2]].nodes)
+    elif op == "wrap":
+        nodes[e[2]:e[3]] = [(Hierarchical if e[4] == "H" else Fork)(nodes=list(nodes[e[2]:e[3]]))]
+    elif op == "reorder":
+        new = [nodes[k] for k in e[2]]
+        if variant % 2:
+            nodes[:] = new
+        else:
+            br.nodes = type(nodes)(new)
+    else:
+        raise ValueError(op)
+
+
+def _inside(pos, branchpos):
+    return tuple(pos[:len(branchpos)]) == tuple(branchpos)
+
+
+def single_edits(tree, fresh, all_moves=False):
+    """Every elementary edit of the tree: a Compute and a non-Compute leaf inserted at every place, every node
+    removed, every Compute (all_moves: every leaf) moved to every other place, every leaf renamed, every nested
+    branch retyped / unwrapped, every single child and every adjacent pair wrapped into a Hierarchical and into a Fork."""
+    out = []
+    branches = list(_all_branches(tree))
+    for k, (pos, ch) in enumerate(branches):
+        for i in range(len(ch) + 1):
+            out.append(["insert", list(pos), i, ["Compute", fresh + "c", 1 + (i + k) % 2, 1]])
+            out.append(["insert", list(pos), i, [NC_KINDS[(i + k) % 3], fresh + "n", 1 + (i + k) % 3, 1]])
+        for i, n in enumerate(ch):
+            out.append(["remove", list(pos), i])
+            if _is_branch(n):
+                out.append(["retype", list(pos), i])
+                out.append(["unwrap", list(pos), i])
+            else:
+                out.append(["rename", list(pos), i, fresh + "r"])
+            for kind in "HF":
+                out.append(["wrap", list(pos), i, i + 1, kind])
+                if i + 2 <= len(ch):
+                    out.append(["wrap", list(pos), i, i + 2, kind])
+            if not _is_branch(n) and (all_moves or n[0] == "Compute"):
+                after = _clone(tree)
+                _at(after, pos).pop(i)
+                for dpos, dch in _all_branches(after):
+                    for j in range(len(dch) + 1):
+                        if tuple(dpos) == tuple(pos) and j == i:
+                            continue  # the place it came from
+                        out.append(["move", list(pos), i, list(dpos), j])
+        if len(ch) >= 2:
+            out.append(["reorder", list(pos), list(reversed(range(len(ch))))])
+    return out
+
+
+def random_edit(rnd, tree, state):
+    """One random edit of the (model) tree; state: {"n": name counter, "freed": names earlier nodes had}."""
+    branches = list(_all_branches(tree))
+    names = set(_leaf_names(tree))
+
+    def new_name(kind):
+        freed = [f for f in state["freed"] if f not in names]
+        if freed and rnd.random() < 0.35:
+            return rnd.choice(freed)  # also a name that used to belong to a node of ANOTHER kind
+        state["n"] += 1
+        return f"{PREFIX[kind]}{state['n']}"
+
+    def nodes_at():
+        return [(pos, i, n) for pos, ch in branches for i, n in enumerate(ch)]
+
+    for _ in range(20):
+        r = rnd.random()
+        if r < 0.22:
+            pos, ch = rnd.choice(branches)
+            kind = "Compute" if rnd.random() < 0.4 else rnd.choice(NC_KINDS)
+            return ["insert", list(pos), rnd.randint(0, len(ch)), [kind, new_name(kind), rnd.choice([1, 1, 2, 3, 4]), rnd.choice([1, 2, 5])]]
+        cand = nodes_at()
+        if not cand:
+            continue
+        if r < 0.38:
+            pos, i, n = rnd.choice(cand)
+            if _is_branch(n) and rnd.random() < 0.6:
+                continue
+            return ["remove", list(pos), i]
+        if r < 0.66:  # moves: mostly a Compute, mostly into / out of a Fork
+            comp = [c for c in cand if not _is_branch(c[2]) and c[2][0] == "Compute"]
+            pos, i, n = rnd.choice(comp if comp and rnd.random() < 0.7 else cand)
+            after = _clone(tree)
+            _at(after, pos).pop(i)
+            dsts = list(_all_branches(after))
+            forks = [d for d in dsts if d[0] and _at(after, d[0][:-1])[d[0][-1]][0] == "F"]
+            dpos, dch = rnd.choice(forks if forks and rnd.random() < 0.5 else dsts)
+            j = rnd.randint(0, len(dch))
+            if tuple(dpos) == tuple(pos) and j == i:
+                continue
+            return ["move", list(pos), i, list(dpos), j]
+        if r < 0.78:
+            leaves = [c for c in cand if not _is_branch(c[2])]
+            if not leaves:
+                continue
+            pos, i, n = rnd.choice(leaves)
+            return ["rename", list(pos), i, new_name(n[0])]
+        nested = [c for c in cand if _is_branch(c[2])]
+        if r < 0.86 and nested:
+            pos, i, n = rnd.choice(nested)
+            return [rnd.choice(["retype", "retype", "unwrap"]), list(pos), i]
+        if r < 0.94:
+            pos, ch = rnd.choice([b for b in branches if b[1]] or branches)
+            if not ch or _depth(tree) >= 5:
+                continue
+            i = rnd.randrange(len(ch))
+            return ["wrap", list(pos), i, min(len(ch), i + rnd.choice([1, 1, 2, 3])), rnd.choice("HFF")]
+        big = [b for b in branches if len(b[1]) >= 2]
+        if big:
+            pos, ch = rnd.choice(big)
+            perm = list(range(len(ch)))
+            rnd.shuffle(perm)
+            if perm != sorted(perm):
+                return ["reorder", list(pos), perm]
+    return None
+
+
+def _check_world(tree, spec, rnd, classes, label, missing=(), light=False):
+    """All queries on one (model tree, evaluated Spec) pair as they are now.  Returns (#comparisons, failure | None)."""
+    cs = computes(tree)
+    req = {}
+    for x in cs:
+        a, b = path_A(tree, x), path_B(tree, x)
+        if a != b or a is None:
+            raise RuntimeError(f"oracle self-check: statements A and B disagree on {tree!r} / {x}: {a} vs {b}")
+        req[x] = a
+    ev = [0]
+
+    def bad(call, x, observed, required):
+        raise _Bad({"on": label, "current_tree": _jsonable(tree), "compute": x, "call": call, "observed": observed, "required": required})
+
+    def cmp(call, x, thunk, required):
+        try:
+            got = _obs(thunk(), classes)
+        except Exception as e:
+            bad(call, x, f"raised {type(e).__name__}: {e}", [list(t) for t in required])
+        ev[0] += 1
+        if got != required:
+            bad(call, x, [list(t) for t in got], [list(t) for t in required])
+
+    def all_entries(call):
+        try:
+            got = [_obs(f, classes) for f in spec._get_flattened_architecture()]
+        except Exception as e:
+            bad(call, None, f"raised {type(e).__name__}: {e}", {x: [list(t) for t in req[x]] for x in cs})
+        for x in cs:
+            mine = [g for g in got if g and g[-1] == ("Compute", x)]
+            ev[0] += 1
+            if len(mine) != 1 or mine[0] != req[x]:
+                bad(call, x, [[list(t) for t in g] for g in got], [list(t) for t in req[x]])
+        if len(got) != len(cs):
+            bad(call, None, [[list(t) for t in g] for g in got], f"exactly one entry per compute {cs}")
+
+    try:
+        all_entries("Spec._get_flattened_architecture()")
+        order = list(cs)
+        rnd.shuffle(order)
+        for x in order:
+            r = req[x]
+            cmp("Spec._get_flattened_architecture(compute_node=name)", x, lambda: spec._get_flattened_architecture(compute_node=x), r)
+            if light:
+                continue
+            cmp("Spec._get_flattened_architecture(compute_node=Compute object)", x,
+                lambda: spec._get_flattened_architecture(compute_node=spec.arch.find(x)), r)
+            cmp("Arch._flatten(name)", x, lambda: spec.arch._flatten(x), r)
+            cmp("Arch._flatten(name, 2, return_fanout=True)[0]", x, lambda: spec.arch._flatten(x, 2, return_fanout=True)[0], r)
+            for pos, sub in branches_containing(tree, x):
+                cmp(f"nested branch at {list(pos)}._flatten(name)", x, lambda: _sub(spec.arch, pos)._flatten(x), path_A(sub, x))
+        for x in missing:  # a name no node has now: no path may be returned for it
+            ev[0] += 1
+            try:
+                got = _obs(spec._get_flattened_architecture(compute_node=x), classes)
+            except Exception:
+                continue
+            bad("Spec._get_flattened_architecture(compute_node=name of no node)", x, [list(t) for t in got], "an exception: no node has this name")
+    except _Bad as b:
+        return ev[0], b.rec
+    return ev[0], None
+
+
+def run_history(tree0, edits, rnd, copies=(), variant=0, query_first=True, spec=None):
+    """Builds and evaluates tree0, queries, then applies the edits one by one, querying after each.
+    edits: a list of edits, or an int n: n random edits.  copies: {step: how} with how in deepcopy /
+    model_copy(deep=True) / arch deepcopy / shallow model_copy / evaluate again: before that step the history
+    continues on that copy; the object left behind must keep answering for ITS tree.
+    spec: an evaluated (and already queried) Spec of tree0 to work on instead of building one.
+    Returns (#comparisons, failure record | None, history description)."""
+    import copy
+    from accelforge.frontend.arch import Memory, Toll, Container, Compute
+    from accelforge.frontend.spec import Spec
+
+    classes = {"Memory": Memory, "Toll": Toll, "Container": Container, "Compute": Compute}
+    tree = _clone(tree0)
+    hist = {"tree": _jsonable(tree0), "history": []}
+    ev = 0
+    if spec is None:
+        spec = Spec(arch=T.build(tree))._spec_eval_expressions()
+    else:
+        query_first = False
+    worlds = []  # (model tree, spec, label) left behind by copies; a shallow copy shares the model tree
+    state = {"n": 100 + len(_leaf_names(tree)), "freed": []}
+
+    def fail(rec):
+        rec = dict(rec)
+        rec["tree"] = hist["tree"]
+        rec["history"] = hist["history"]
+        return rec
+
+    if query_first:
+        e, rec = _check_world(tree, spec, rnd, classes, "the evaluated Spec")
+        ev += e
+        if rec:
+            return ev, fail(rec), hist
+    steps = edits if isinstance(edits, list) else [None] * edits
+    for k, e in enumerate(steps):
+        how = copies.get(k) if copies else None
+        if how:
+            old = (tree, spec)
+            if how == "deepcopy":
+                spec, tree = copy.deepcopy(spec), _clone(tree)
+            elif how == "model_copy(deep=True)":
+                spec, tree = spec.model_copy(deep=True), _clone(tree)
+            elif how == "arch deepcopy":  # a new Spec object around a deep copy of the arch
+                spec = spec.model_copy()
+                spec.arch = copy.deepcopy(old[1].arch)
+                tree = _clone(tree)
+            elif how == "shallow model_copy":  # shares the arch: both must follow every later edit
+                spec = spec.model_copy()
+            elif how == "evaluate again":
+                spec, tree = spec._spec_eval_expressions(), _clone(tree)
+            else:
+                raise ValueError(how)
+            worlds = (worlds + [(old[0], old[1], f"the object left behind at step {k} ({how})")])[-2:]
+            hist["history"].append(["continue on", how])
+        if e is None:
+            e = random_edit(rnd, tree, state)
+            if e is None:
+                continue
+        before = set(_leaf_names(tree))
+        apply_model(tree, e)
+        hist["history"].append(e)
+        try:
+            apply_real(spec.arch, e, variant + k)
+        except Exception as ex:
+            return ev, fail({"on": "the edited Spec", "current_tree": _jsonable(tree), "compute": None, "call": f"edit {e}",
+                             "observed": f"raised {type(ex).__name__}: {ex}", "required": "the edit is accepted"}), hist
+        now = set(_leaf_names(tree))
+        state["freed"] += sorted(before - now)
+        missing = [n for n in state["freed"] if n not in now][-2:]
+        c, rec = _check_world(tree, spec, rnd, classes, "the edited Spec", missing=missing)
+        ev += c
+        if rec:
+            return ev, fail(rec), hist
+        for wt, ws, wl in worlds:
+            c, rec = _check_world(wt, ws, rnd, classes, wl, light=True)
+            ev += c
+            if rec:
+                return ev, fail(rec), hist
+    return ev, None, hist
+
+
+COPY_KINDS = ["deepcopy", "model_copy(deep=True)", "arch deepcopy", "shallow model_copy", "evaluate again"]
+
+
 def _short(tree):
     def go(f):
         return "[" + " ".join((n[0] + go(n[1])) if _is_branch(n) else n[1] + (f"x{n[2]}" if n[2] > 1 else "") for n in f) + "]"
@@ -379,7 +771,84 @@ def _sweep(seed, n_random, K_full, K_direct, known=None):
             return ev, len(seen), badrec, samples, stats
         if len(samples) < 8 and i % max(1, n_random // 5) == 0:
             samples.append("random " + _short(tree))
-    return ev, len(seen), None, samples, stats
+    # ---- edit histories
+    import copy
+    from accelforge.frontend.spec import Spec
+    thorough = n_random > 1000
+    stats.update({"histories": 0, "history_edits": 0, "core_single_edits": 0, "core_edit_pairs": 0})
+    hseen = set()
+
+    def hist_run(tree, edits, **kw):
+        nonlocal ev
+        c, rec, h = run_history(tree, edits, rnd, **kw)
+        ev += c
+        stats["histories"] += 1
+        stats["history_edits"] += sum(1 for x in h["history"] if x[0] != "continue on")
+        hseen.add(repr(h))
+        return rec, h
+
+    # every single edit of every tree with <= K_hist nodes: half on the evaluated Spec that has just answered all
+    # queries, half on a copy of it made after it has answered (5 kinds of copy in turn)
+    K_hist = 4 if thorough else 3
+    k = 0
+    for tree in exhaustive_trees(K_hist):
+        base = Spec(arch=T.build(tree))._spec_eval_expressions()
+        c, rec = _check_world(tree, base, rnd, _classes(), "the evaluated Spec")
+        ev += c
+        if rec:
+            return ev, len(seen) + len(hseen), _hist_rec(rec, tree, []), samples, stats
+        for e in single_edits(tree, "Z", all_moves=thorough):
+            k += 1
+            stats["core_single_edits"] += 1
+            if k % 7 == 0:  # the whole history on a freshly built Spec
+                rec, h = hist_run(tree, [e], variant=k)
+            else:
+                rec, h = hist_run(tree, [e], variant=k, spec=copy.deepcopy(base),
+                                  copies={0: COPY_KINDS[k % 5]} if k % 2 else {})
+            if rec:
+                return ev, len(seen) + len(hseen), rec, samples, stats
+    # every ordered pair of single edits (the second one enumerated on the edited tree) of the trees with <= K_pair nodes
+    K_pair = 3 if thorough else 2
+    k = 0
+    for tree in exhaustive_trees(K_pair):
+        base = Spec(arch=T.build(tree))._spec_eval_expressions()
+        _check_world(tree, base, rnd, _classes(), "the evaluated Spec")
+        for e1 in single_edits(tree, "Z"):
+            t1 = _clone(tree)
+            apply_model(t1, e1)
+            for e2 in single_edits(t1, "Y"):
+                k += 1
+                if thorough and K_pair == 3 and len(_leaf_names(tree)) + sum(1 for _ in _all_branches(tree)) > 3 and k % 4:
+                    continue  # one in four of the pairs on the 3-node trees
+                stats["core_edit_pairs"] += 1
+                rec, h = hist_run(tree, [e1, e2], variant=k, spec=copy.deepcopy(base),
+                                  copies={k % 2: COPY_KINDS[k % 5]} if k % 3 == 0 else {})
+                if rec:
+                    return ev, len(seen) + len(hseen), rec, samples, stats
+    # seeded random histories
+    n_hist = 6000 if thorough else 300
+    for i in range(n_hist):
+        tree = random_tree(rnd) if rnd.random() < 0.8 else label(rnd.choice(_shape_forests(rnd.randint(1, 4), 3)), i)
+        nsteps = rnd.randint(3, 8)
+        copies = {rnd.randrange(nsteps): rnd.choice(COPY_KINDS) for _ in range(rnd.choice([0, 1, 1, 2]))}
+        rec, h = hist_run(tree, nsteps, copies=copies, variant=i)
+        if rec:
+            return ev, len(seen) + len(hseen), rec, samples, stats
+        if i in (1, 2):
+            samples[-1:] = ["history " + _short(tree) + " then " + "; ".join(" ".join(str(x).replace(" ", "") for x in e) for e in h["history"])[:200]]
+    return ev, len(seen) + len(hseen), None, samples, stats
+
+
+def _classes():
+    from accelforge.frontend.arch import Memory, Toll, Container, Compute
+    return {"Memory": Memory, "Toll": Toll, "Container": Container, "Compute": Compute}
+
+
+def _hist_rec(rec, tree, history):
+    rec = dict(rec)
+    rec["tree"] = _jsonable(tree)
+    rec["history"] = history
+    return rec
 
 
 def _sizes(n):
@@ -387,12 +856,19 @@ def _sizes(n):
     return (5 * n, 4, 5) if n <= 200 else (10 * n, 5, 6)
 
 
+def _input_of(rec):
+    inp = {"tree": rec["tree"], "compute": rec["compute"], "call": rec["call"]}
+    for k in ("history", "current_tree", "on"):
+        if k in rec:
+            inp[k] = rec[k]
+    return inp
+
+
 def _result(seed, n, known):
     n_random, kf, kd = _sizes(n)
     ev, distinct, badrec, samples, stats = _sweep(seed, n_random, kf, kd, known)
     if badrec:
-        return {"failed": True, "input": {"tree": badrec["tree"], "compute": badrec["compute"], "call": badrec["call"]},
-                "observed": badrec["observed"], "required": badrec["required"]}
+        return {"failed": True, "input": _input_of(badrec), "observed": badrec["observed"], "required": badrec["required"]}
     return {"failed": False, "evaluations": ev, "distinct": distinct, "known_finding_hits": 0, "bound": BOUND, "rule": RULE,
             "exhaustive": True, "coverage": stats, "samples": samples}
 
@@ -408,8 +884,7 @@ def bounded(p):
 def replay(p):
     ev, distinct, badrec, samples, stats = _sweep(p.get("seed", 0), 600, 4, 4, p.get("known"))
     if badrec:
-        return {"failed": True, "input": {"tree": badrec["tree"], "compute": badrec["compute"], "call": badrec["call"]},
-                "observed": badrec["observed"], "required": badrec["required"]}
+        return {"failed": True, "input": _input_of(badrec), "observed": badrec["observed"], "required": badrec["required"]}
     return {"failed": False, "tried": distinct}
 
 
